@@ -151,7 +151,8 @@ def check_np(case, ctx):
             s = float(b.sum())
             frac = float(b[mask].sum()) / s if s > 0 else float("nan")
             # a fraction of exactly zero is robust (no energy under the wave-age curve): "exceeds" is strict there
-            if not math.isnan(frac) and abs(frac - case["wscut"]) <= 1e-9 and not (frac == 0.0 and case["wscut"] == 0.0):
+            # the library forms the fraction in the dtype of the data: within that resolution of the cutoff it is a boundary case
+            if not math.isnan(frac) and abs(frac - case["wscut"]) <= (1e-6 if case["dtype"] == "float32" else 1e-9) and not (frac == 0.0 and case["wscut"] == 0.0):
                 skip_diff = True
             if frac > case["wscut"]:
                 ws1 = ws1 + b
